@@ -342,10 +342,10 @@ func main() {
 	perMech := map[string]any{}
 	var epochBuilt int64
 	pool := ccm.NewWorlds(32)
-	// payload families (see payload.go): quick N = 4; thorough N = 4, 5, 6
+	// payload families (see payload.go): quick N = 4; thorough N = 4, 5
 	pn := []int{4}
 	if r.Thorough() {
-		pn = []int{4, 5, 6}
+		pn = []int{4, 5}
 	}
 	pst, ptr := 0, 0
 	for _, n := range pn {
@@ -398,9 +398,9 @@ func main() {
 	r.Finish(map[string]any{
 		"rule":       "release/emit exactly once, in the tx of the first current-validator vote after which |voters ∩ current consensus| >= ceil(2N/3); outsiders never leave a trace",
 		"mechanisms": []string{"vote router", "ripple router", "UpdateFee", "AddSignature", "vote router with blacklisted target (failed release)"},
-		"N_range":    fmt.Sprintf("1..%d", nmax), "epoch_change_modes": []string{"join N>=1", "join3 N<=6", "replace N>=4", "shrink N>=5"}, "epoch_change_positions": "every position before and after the release",
+		"N_range":    fmt.Sprintf("1..%d", nmax), "epoch_change_modes": []string{"join N>=1", "join3 N<=5", "replace N>=4", "shrink N>=5"}, "epoch_change_positions": "every position before and after the release",
 		"in_view_status_changes": map[bool]string{false: "vote, sig at N=5: one quitNode (voter / non-voter) or one candidate approval, optional later commitDpos, at every position",
-			true: "N=5 every mechanism: up to two quitNode, or one candidate approval; vote, fee, sig also at N=4,6,7: one quitNode or one candidate approval; optional later commitDpos; at every position"}[r.Thorough()],
+			true: "vote, fee, sig: N=5 up to two quitNode, or one candidate approval; N=4,6,7 one quitNode or one candidate approval; optional later commitDpos; at every position"}[r.Thorough()],
 		"epoch_change_scope": map[bool]string{true: "every mechanism, every N", false: "vote, fee, sig at N=4 (incl. join3), AddSignature also at N=5"}[r.Thorough()],
 		"states":             total.States, "transitions": total.Transitions, "traces_validated_against_impl": total.Transitions, "max_depth": total.MaxDepth,
 	})
@@ -415,7 +415,7 @@ func explore(r *ev.Run, j job, pool *ccm.Worlds, epochBuilt *int64) mc.Stats {
 	// thorough: every mechanism and N (join3 for N <= 6)
 	if r.Thorough() || (n == 4 && (m.name == "vote" || m.name == "fee" || m.name == "sig")) || (m.name == "sig" && n == 5) {
 		epochModes = append(epochModes, "join")
-		if n <= 6 && (r.Thorough() || n == 4) {
+		if n <= 5 && (r.Thorough() || n == 4) {
 			epochModes = append(epochModes, "join3")
 		}
 		if n >= 4 {
@@ -429,7 +429,7 @@ func explore(r *ev.Run, j job, pool *ccm.Worlds, epochBuilt *int64) mc.Stats {
 	// quick: vote/fee/sig at N = 5, at most one quitNode, quit and candidate never combined on one path;
 	// thorough: every mechanism at N = 5 with up to two quits, vote/fee/sig also at N = 4, 6, 7
 	core := m.name == "vote" || m.name == "fee" || m.name == "sig"
-	inView := (n == 5 && ((core && m.name != "fee") || r.Thorough())) || (r.Thorough() && core && (n == 4 || n == 6 || n == 7))
+	inView := (n == 5 && core && (m.name != "fee" || r.Thorough())) || (r.Thorough() && core && (n == 4 || n == 6 || n == 7))
 	maxQuits, combine := 1, false
 	if r.Thorough() && n == 5 {
 		maxQuits = 2
